@@ -16,6 +16,17 @@ fn sort_small<const N: usize>(v: &mut [f64; N]) {
     }
 }
 
+/// r is the midpoint of a and b up to rounding: 2r agrees with a+b to 4 ulp (doubling is exact; additions only, no
+/// multiplier for the solver), or exactly when a == b; an absolute slack covers subnormal halves.
+fn is_mid(r: f64, a: f64, b: f64) -> bool {
+    if a == b {
+        return same(r, a) || (r - a).abs() <= 1e-320;
+    }
+    let s = a + b;
+    let d = r + r;
+    ulp_close(d, s, 4) || (d - s).abs() <= 1e-320
+}
+
 /// p restricted to doubles with at most 13 significant bits and p >= 2^-12 (or 0): contains every m/4096,
 /// so 0, 1 and every k/2, k/4 boundary; n*p is then exact for n <= 4.
 fn grid_p<I: Inp>(i: &mut I) -> f64 {
@@ -34,8 +45,17 @@ fn obs<I: Inp>(i: &mut I) -> f64 {
 
 /// exact-product case (n*p representable): the answer is unambiguous, averaging is mandatory on whole n*p
 fn exact_case<I: Inp, const N: usize>(i: &mut I, p: f64) {
+    exact_case_on::<I, N>(i, p, false)
+}
+
+/// observation on a quarter-integer lattice (i16 / 4): keeps the 0.5*a + 0.5*b products narrow for the solver
+fn obs_lat<I: Inp>(i: &mut I) -> f64 {
+    (i.i16() as f64) * 0.25
+}
+
+fn exact_case_on<I: Inp, const N: usize>(i: &mut I, p: f64, lattice: bool) {
     let mut xs = [0.0f64; N];
-    for j in 0..N { xs[j] = obs(i); }
+    for j in 0..N { xs[j] = if lattice { obs_lat(i) } else { obs(i) }; }
     let mut q = Quantile::new(p);
     for j in 0..N { q.add(xs[j]); }
     vassert!(i, q.len() == N as u64, "C07:len-counts-observations");
@@ -52,8 +72,7 @@ fn exact_case<I: Inp, const N: usize>(i: &mut I, p: f64) {
         // whole n*p = j with 1 <= j <= N-1: average of v[j-1] and v[j]
         let j = c as usize;
         if j >= 1 && j <= N - 1 {
-            let avg = 0.5 * v[j - 1] + 0.5 * v[j];
-            vassert!(i, ulp_close(r, avg, 2) || (v[j - 1] == v[j] && same(r, v[j])), "C07:whole-np-averages-adjacent-order-statistics");
+            vassert!(i, is_mid(r, v[j - 1], v[j]), "C07:whole-np-averages-adjacent-order-statistics");
         }
     } else {
         let k = c as usize; // smallest k with k/n >= p
@@ -61,15 +80,19 @@ fn exact_case<I: Inp, const N: usize>(i: &mut I, p: f64) {
             vassert!(i, same(r, v[k - 1]), "C07:smallest-observation-reaching-p");
         }
     }
-    vcover!(i, N > 1 && xs[0] > xs[N - 1] && t != c && p > 0.0, "unsorted-arrival-non-boundary-p");
-    vcover!(i, N > 1 && t == c && p > 0.0 && p < 1.0 && xs[0] > xs[N - 1], "unsorted-arrival-boundary-p");
+    vcover!(i, (N == 1 || xs[0] > xs[N - 1]) && t != c && p > 0.0, "unsorted-arrival-non-boundary-p");
+    vcover!(i, N == 1 || N == 3 || (t == c && p > 0.0 && p < 1.0 && xs[0] > xs[N - 1]), "unsorted-arrival-boundary-p");
 }
 
 /// rounded-product case (n = 3, arbitrary p): when fl(n*p) is within an ulp of a whole number either adjacent
 /// convention is accepted, otherwise the ceil rule is unambiguous.
 fn rounded_case<I: Inp, const N: usize>(i: &mut I, p: f64) {
+    rounded_case_on::<I, N>(i, p, false)
+}
+
+fn rounded_case_on<I: Inp, const N: usize>(i: &mut I, p: f64, lattice: bool) {
     let mut xs = [0.0f64; N];
-    for j in 0..N { xs[j] = obs(i); }
+    for j in 0..N { xs[j] = if lattice { obs_lat(i) } else { obs(i) }; }
     let mut q = Quantile::new(p);
     for j in 0..N { q.add(xs[j]); }
     let r = q.quantile();
@@ -88,8 +111,7 @@ fn rounded_case<I: Inp, const N: usize>(i: &mut I, p: f64) {
         for j in 1..N {
             if near_whole(j as f64) {
                 ambiguous = true;
-                let avg = 0.5 * v[j - 1] + 0.5 * v[j];
-                ok = ok || same(r, v[j - 1]) || same(r, v[j]) || ulp_close(r, avg, 2);
+                ok = ok || same(r, v[j - 1]) || same(r, v[j]) || is_mid(r, v[j - 1], v[j]);
             }
         }
         if !ambiguous {
@@ -101,7 +123,7 @@ fn rounded_case<I: Inp, const N: usize>(i: &mut I, p: f64) {
         }
         vassert!(i, ok, "C07:exact-sample-quantile-up-to-boundary-convention");
     }
-    vcover!(i, N > 1 && xs[0] > xs[N - 1] && p > 0.0 && p < 1.0, "unsorted-arrival");
+    vcover!(i, (N == 1 || xs[0] > xs[N - 1]) && p > 0.0 && p < 1.0, "unsorted-arrival");
 }
 
 fn free_p<I: Inp>(i: &mut I) -> f64 {
@@ -132,6 +154,11 @@ harnesses! {
     fn grid2 [8] (i) { let p = grid_p(i); exact_case::<I, 2>(i, p); }
     fn grid3 [8] (i) { let p = grid_p(i); exact_case::<I, 3>(i, p); }
     fn grid4 [8] (i) { let p = grid_p(i); exact_case::<I, 4>(i, p); }
+    fn lat2 [8] (i) { let p = grid_p(i); exact_case_on::<I, 2>(i, p, true); }
+    fn lat4 [8] (i) { let p = grid_p(i); exact_case_on::<I, 4>(i, p, true); }
+    fn twelfth2_lat [8] (i) { let p = twelfth_p(i); rounded_case_on::<I, 2>(i, p, true); }
+    fn twelfth3_lat [8] (i) { let p = twelfth_p(i); rounded_case_on::<I, 3>(i, p, true); }
+    fn twelfth4_lat [8] (i) { let p = twelfth_p(i); rounded_case_on::<I, 4>(i, p, true); }
     fn free1 [8] (i) { let p = free_p(i); exact_case::<I, 1>(i, p); }
     fn free2 [8] (i) { let p = free_p(i); exact_case::<I, 2>(i, p); }
     fn free4 [8] (i) { let p = free_p(i); exact_case::<I, 4>(i, p); }
